@@ -131,6 +131,54 @@ theorem cell_eq_memory (x : Ext) (hx : ExtLaw x) (cs : ColStyles) (rowStyle : In
     some (readCell x c) = Spec.cellObs cs rowStyle col it :=
   (Stream.cell_eq_memory x hx cs rowStyle ref col it hskip hok c h).2
 
+/-- **time.Time values.** `SetRow` stores a time as `SetCellValue` does (same serial text — `timeToExcelTime` is C19's
+model and external here — kind number, or the RFC 3339 text when the serial is not positive; same formula); the style is
+the same whenever the cell has one (its own, the row's or its column's). Only a time stored as a number in a cell without
+any style differs, by design of the two APIs: the stream writer gives it the `NumFmt 22` style (`nf`), the in-memory API
+the format `getTimeNumFmt` picks (`nfMem`: 14, 17 or 22) — the property asks for *explicitly assigned* styles only.
+(With `nf = nfMem` the general `cell_eq_memory` / `stream_eq_memory` cover time values like every other kind.) -/
+theorem time_cell_eq_memory (x : Ext) (hx : ExtLaw x) (cs : ColStyles) (rowStyle : Int) (ref : Bytes) (col : Int)
+    (isNum : Bool) (text : Bytes) (nf nfMem : Int) (htext : text ≠ []) (wrap : Option (Int × Bytes)) (c : XC)
+    (h : mkCell x cs rowStyle ref col
+      (match wrap with | none => .plain (.time isNum text nf nfMem) | some w => .cell w.1 w.2 (.time isNum text nf nfMem)) = .ok c) :
+    ∃ o, Spec.cellObs cs rowStyle col
+        (match wrap with | none => .plain (.time isNum text nf nfMem) | some w => .cell w.1 w.2 (.time isNum text nf nfMem)) = some o ∧
+      (readCell x c).kind = o.kind ∧ (readCell x c).value = o.value ∧ (readCell x c).formula = o.formula ∧
+      ((readCell x c).style = o.style ∨ (isNum = true ∧ (readCell x c).style = nf ∧ o.style = nfMem)) := by
+  cases wrap with
+  | none =>
+    have h' : mkCell x cs rowStyle ref col (.plain (.time isNum text nf nf)) = .ok c := h
+    have := (Stream.cell_eq_memory x hx cs rowStyle ref col (.plain (.time isNum text nf nf)) (by simp [Item.isSkip])
+      (show Val.ok (.time isNum text nf nf) from ⟨htext, rfl⟩) c h').2
+    simp only [Spec.cellObs, Option.some.injEq] at this
+    refine ⟨_, rfl, ?_⟩
+    rw [this]
+    generalize (if rowStyle ≠ 0 then rowStyle else colStyleAt cs col) = S
+    simp only [Spec.valObs, Spec.valStyle]
+    refine ⟨trivial, trivial, trivial, ?_⟩
+    cases isNum with
+    | false => left; rfl
+    | true =>
+      by_cases hs : S = 0
+      · right; simp [hs]
+      · left; simp [hs]
+  | some w =>
+    have h' : mkCell x cs rowStyle ref col (.cell w.1 w.2 (.time isNum text nf nf)) = .ok c := h
+    have := (Stream.cell_eq_memory x hx cs rowStyle ref col (.cell w.1 w.2 (.time isNum text nf nf)) (by simp [Item.isSkip])
+      (show Val.ok (.time isNum text nf nf) from ⟨htext, rfl⟩) c h').2
+    simp only [Spec.cellObs, Option.some.injEq] at this
+    refine ⟨_, rfl, ?_⟩
+    rw [this]
+    generalize (if w.1 > 0 then w.1 else if rowStyle ≠ 0 then rowStyle else colStyleAt cs col) = S
+    simp only [Spec.valObs, Spec.valStyle]
+    refine ⟨trivial, trivial, trivial, ?_⟩
+    cases isNum with
+    | false => left; rfl
+    | true =>
+      by_cases hs : S = 0
+      · right; simp [hs]
+      · left; simp [hs]
+
 /-- **stream_eq_memory.** Take any starting state without rows (any SetColStyle/SetColWidth/
 SetPanes/MergeCell history) and any sequence of SetRow calls that are all accepted (hence
 ascending), with arbitrary gaps, nil cells, starting columns and widths. Reading the written
@@ -458,5 +506,8 @@ theorem skel_setStr_ok : Facts.C11.skel_setStr = ["lit str", "call trimCellValue
 theorem skel_trimCellValue_ok : Facts.C11.skel_trimCellValue = ["if", "op >", "call RuneCountInString", "call string", "if", "op !=", "lit ", "call len", "range", "if", "op ==", "op ||", "op ==", "lit space", "lit preserve", "break", "call bstrMarshal", "if", "op &&", "op !=", "lit ", "call EscapeText", "call ReplaceAll", "call String", "lit &#xA;", "lit \n", "return"] := by decide
 /-- skeleton of the Go function (calls, literals, comparison operators, field writes, returns in source order) -/
 theorem skel_prepareCellStyle_ok : Facts.C11.skel_prepareCellStyle = ["if", "op !=", "return", "if", "op <=", "call len", "if", "op !=", "return", "if", "op !=", "range", "if", "op <=", "op &&", "op <=", "op &&", "op !=", "return", "return"] := by decide
+
+/-- skeleton of the Go function (calls, literals, comparison operators, field writes, returns in source order) -/
+theorem skel_setCellTime_ok : Facts.C11.skel_setCellTime = ["call workbookReader", "if", "op !=", "return", "if", "op !=", "op &&", "op !=", "if", "op ==", "op &&", "op &&", "op ==", "call setCellTime", "call NewStyle", "kv NumFmt=22", "return"] := by decide
 
 end XlModel.Props.C11
